@@ -41,12 +41,14 @@ type KillCase struct {
 	// what the APPLICATION does between the kill and the restart ("" = nothing), see scn.runApp
 	App      string `json:"app,omitempty"`
 	NoInsert bool   `json:"noinsert,omitempty"` // restart: first sync without a fresh application commit
+	// restart: n>0 = before any new application write run n-1 idle syncs, then DB.Snapshot, restore, compare
+	SnapFirst int `json:"snapfirst,omitempty"`
 }
 
 // appVariant: seeded choice of the application's activity while litestream is dead.
 func appVariant(r *hx.Rand) (string, bool) {
 	noins := r.Chance(50)
-	if r.Chance(20) {
+	if r.Chance(35) {
 		return "", noins
 	}
 	pre := []int{0, 2, 8, 20}[r.Intn(4)]
@@ -120,17 +122,17 @@ type recoverLine struct {
 }
 
 type outcome struct {
-	kc        KillCase
-	killed    bool
-	acked     int
-	opAtKill  string
-	rec       recoverLine
-	tmpLeft   []string
-	raw       string
+	kc                  KillCase
+	killed              bool
+	acked               int
+	opAtKill            string
+	rec                 recoverLine
+	tmpLeft             []string
+	raw                 string
 	skippedFollowOutput bool
-	followDetail string
-	appOut string
-	err       error
+	followDetail        string
+	appOut              string
+	err                 error
 }
 
 // lastAcked: highest replica TXID acknowledged (upload / syncandwait / close) before the kill; op in progress.
@@ -251,6 +253,9 @@ func killOnce(kc KillCase) outcome {
 	if kc.NoInsert {
 		extra = append(extra, "-noinsert")
 	}
+	if kc.SnapFirst > 0 {
+		extra = append(extra, "-snapfirst", fmt.Sprint(kc.SnapFirst))
+	}
 	if kc.App != "" {
 		oc.appOut = runApp(kc.Scenario, root, kc.App, kc.Seed+uint64(kc.K))
 	}
@@ -324,7 +329,7 @@ func pickKills(o *hx.Opts, root string, rec *ptkill.Result, r *hx.Rand, ckptWind
 		ms = append(ms, k)
 	}
 	sort.Ints(ms)
-	capMust, nOther := 20, 8
+	capMust, nOther := 16, 6
 	for len(ms) > capMust {
 		i := r.Intn(len(ms))
 		ms = append(ms[:i], ms[i+1:]...)
@@ -362,7 +367,7 @@ func (g *engine) record(oc outcome, root string) {
 	if kc.Call != nil {
 		desc = kc.Call.Sys + ":" + pathClassAny(kc.Call.Path)
 	}
-	g.res.Case(fmt.Sprintf("%s/%d/%d/%d/%s/%v", kc.Name, kc.Seed, kc.Rounds, kc.K, kc.App, kc.NoInsert), oc.killed)
+	g.res.Case(fmt.Sprintf("%s/%d/%d/%d/%s/%v/%d", kc.Name, kc.Seed, kc.Rounds, kc.K, kc.App, kc.NoInsert, kc.SnapFirst), oc.killed)
 	if !oc.killed {
 		g.res.Count("kill-point-not-reached")
 		return
@@ -388,14 +393,19 @@ func (g *engine) record(oc outcome, root string) {
 	} else {
 		g.res.Count("app-while-down:idle")
 	}
-	payload := map[string]any{"scenario": kc.Name, "seed": kc.Seed, "rounds": kc.Rounds, "k": kc.K, "app": kc.App, "noinsert": kc.NoInsert, "call": kc.Call, "acked": oc.acked, "op": oc.opAtKill, "recover": oc.rec, "app_out": oc.appOut, "log": tailS(oc.raw, 1500)}
+	if kc.SnapFirst > 0 {
+		g.res.Count(fmt.Sprintf("snapshot-before-first-write:idle-syncs=%d", kc.SnapFirst-1))
+	}
+	payload := map[string]any{"scenario": kc.Name, "seed": kc.Seed, "rounds": kc.Rounds, "k": kc.K, "app": kc.App, "noinsert": kc.NoInsert, "snapfirst": kc.SnapFirst, "call": kc.Call, "acked": oc.acked, "op": oc.opAtKill, "recover": oc.rec, "app_out": oc.appOut, "log": tailS(oc.raw, 1500)}
 	if oc.rec.Recover == "fail" {
 		sig := "C03/" + oc.rec.Stage + "/" + desc
-		if kc.App != "" { // what matters is what the application did while litestream was down, not the kill point
+		if oc.rec.Stage == "compare-after-snapshot" || oc.rec.Stage == "snapshot-after-restart" || oc.rec.Stage == "idle-sync" {
+			sig = "C03/" + oc.rec.Stage
+		} else if kc.App != "" { // what matters is what the application did while litestream was down, not the kill point
 			sig = "C03/" + oc.rec.Stage + "/app-while-down:" + strings.SplitN(strings.SplitN(kc.App, "mode=", 2)[1], ",", 2)[0]
 		}
 		g.res.AddFinding("violation", sig,
-			fmt.Sprintf("scenario %s killed before call %d (%s, during %q), application while down: %q, then restart: stage %s fails: %s", kc.Name, kc.K, describe(kc.Call), oc.opAtKill, kc.App, oc.rec.Stage, tailS(oc.rec.Detail, 300)), payload)
+			fmt.Sprintf("scenario %s killed before call %d (%s, during %q), application while down: %q, restart (snapfirst=%d noinsert=%v): stage %s fails: %s", kc.Name, kc.K, describe(kc.Call), oc.opAtKill, kc.App, kc.SnapFirst, kc.NoInsert, oc.rec.Stage, tailS(oc.rec.Detail, 300)), payload)
 	} else if len(oc.tmpLeft) > 0 {
 		payload["tmp_left"] = oc.tmpLeft
 		g.res.AddFinding("violation", "C03/tmp-left-after-open",
@@ -505,7 +515,7 @@ func main() {
 	}
 	o := hx.ParseFlags("C03")
 	res := hx.NewResult(o, "c03: kill engine (ptrace supervisor, SIGKILL before the k-th mutating call) + restart oracle; recorded traces judged by Lean killOK")
-	res.Rule = "scenarios {basic, compact(+snapshot, retention), restore, follow, behind, reopen, restorev3, pinned (reader blocks WAL restart), ckptbusy (commits during litestream's checkpoints)}; one case = (scenario, seed, rounds, k): the child is killed immediately before its k-th file-system-mutating call under the scenario root (openat O_CREAT/O_TRUNC, write*, ftruncate, rename*, unlink*, mkdir*, copy_file_range...), then restarted; quick: every rename/unlink on litestream-owned names with its neighbours (seeded cap 20 per scenario, always every open of a staging file inside litestream's own checkpoint) + 8 seeded others per scenario; thorough: every k. Between the kill and the restart the application keeps working in its own process (seeded: commits, wal_checkpoint PASSIVE/FULL/RESTART/TRUNCATE, commits, connection closed or left open), and the restart's first sync runs with or without a fresh commit. non-trivial = the kill point was reached"
+	res.Rule = "scenarios {basic, compact(+snapshot, retention), restore, follow, behind, reopen, restorev3, pinned (reader blocks WAL restart), ckptbusy (commits during litestream's checkpoints)}; one case = (scenario, seed, rounds, k): the child is killed immediately before its k-th file-system-mutating call under the scenario root (openat O_CREAT/O_TRUNC, write*, ftruncate, rename*, unlink*, mkdir*, copy_file_range...), then restarted; quick: every rename/unlink on litestream-owned names with its neighbours (seeded cap 16 per scenario, always every open of a staging file inside litestream's own checkpoint) + 6 seeded others per scenario; thorough: every k. Between the kill and the restart the application keeps working in its own process (seeded: commits, wal_checkpoint PASSIVE/FULL/RESTART/TRUNCATE, commits, connection closed or left open), and the restart's first sync runs with or without a fresh commit; in a seeded share of the cases the restarted process first runs 0-2 idle syncs and DB.Snapshot BEFORE any new application write, restores and compares with the source, then continues with or without a write. non-trivial = the kill point was reached"
 	g := &engine{o: o, res: res}
 	if o.Replay != "" {
 		os.Exit(g.replay())
@@ -571,7 +581,11 @@ func main() {
 		vr := r.Fork()
 		for _, k := range pickKills(o, root, rec, r.Fork(), ckpt) {
 			app, noins := appVariant(vr)
-			cases = append(cases, KillCase{Scenario: sc, K: k, App: app, NoInsert: noins})
+			snap := 0
+			if (app == "" && vr.Chance(70)) || (app != "" && vr.Chance(25)) {
+				snap = 1 + vr.Intn(3) // 0, 1 or 2 idle syncs, then Snapshot before any new write
+			}
+			cases = append(cases, KillCase{Scenario: sc, K: k, App: app, NoInsert: noins, SnapFirst: snap})
 			if ckpt[k] && (app != "" || !noins) {
 				// the state the checkpoint itself left (with whatever the application committed meanwhile), untouched
 				cases = append(cases, KillCase{Scenario: sc, K: k, NoInsert: true})
@@ -627,7 +641,7 @@ func (g *engine) replay() int {
 		kc := w.Replay
 		kc.K = k
 		oc := killOnce(kc)
-		fmt.Printf("k=%d app=%q noinsert=%v killed=%v before=%s acked=%d recover=%s stage=%s detail=%s tmp_left=%v follow_output=%q\n", k, kc.App, kc.NoInsert, oc.killed, describe(oc.kc.Call), oc.acked, oc.rec.Recover, oc.rec.Stage, tailS(oc.rec.Detail, 300), oc.tmpLeft, oc.followDetail)
+		fmt.Printf("k=%d app=%q noinsert=%v snapfirst=%d killed=%v before=%s acked=%d recover=%s stage=%s detail=%s tmp_left=%v follow_output=%q\n", k, kc.App, kc.NoInsert, kc.SnapFirst, oc.killed, describe(oc.kc.Call), oc.acked, oc.rec.Recover, oc.rec.Stage, tailS(oc.rec.Detail, 300), oc.tmpLeft, oc.followDetail)
 		if oc.killed && (oc.rec.Recover == "fail" || len(oc.tmpLeft) > 0 || oc.followDetail != "") {
 			fails++
 		}
